@@ -205,6 +205,8 @@ def csv_via_cli(case, data, expanded):
             argv.append('--no1014blocking')
         if expanded:
             argv.append('--expanded')
+        if len(data) % 2:
+            argv.append('--debug')
         if case['param_config'] is not None:
             cfgfile = os.path.join(d, 'cardutil.json')
             with open(cfgfile, 'w') as f:
